@@ -974,3 +974,45 @@ def rule_L4(ctx, R):
         res.bad(Violation("L4", P, "enumeration", "blocking ops of OwnedLockCollection enumerate members differently: %s" % srcs))
     res.need(2, "owned-collection facts")
     return res
+
+
+def rule_N5(ctx, R):
+    res = RuleResult("N5", "the no-duplicates fact is not invalidated after construction: a collection that can be built from borrowed "
+                           "locks (try_new / new_unchecked) hands out `&mut` access to its data only under an OwnedLockable bound")
+    F = ctx.F
+    for f in F.fns:
+        if "inputs" not in f or f.get("unsafe") or not f.get("reachable"):
+            continue
+        imp = F.impl_of_fn(f)
+        if not imp:
+            continue
+        st = imp["self_ty"]
+        tgt = st["ty"] if st["k"] == "ref" else st
+        if tgt["k"] != "adt" or tgt["path"] not in COLLS or tgt["path"] == "collection::OwnedLockCollection":
+            continue
+        lp = [a["name"] for a in tgt["args"] if a["k"] == "param"]
+        if not lp:
+            continue
+        out = f["output"]
+        gives_mut = False
+        for x in ty_walk(out):
+            if x["k"] == "ref" and x["mut"] and any(y["k"] == "param" and y["name"] in lp for y in ty_walk(x["ty"])):
+                gives_mut = True
+        # `&'a mut L: IntoIterator` iterators and AsMut<T> targets hand out &mut into L as well
+        takes_mut_self = f["inputs"] and f["inputs"][0]["k"] == "ref" and f["inputs"][0]["mut"] and \
+            f["inputs"][0]["ty"]["k"] == "adt" and f["inputs"][0]["ty"]["path"] == tgt["path"]
+        if takes_mut_self and (any(x["k"] == "alias" and x.get("name") in ("IntoIter", "Item") for x in ty_walk(out))
+                               or (out["k"] == "ref" and out["mut"])):
+            gives_mut = True
+        if not gives_mut:
+            continue
+        owned = any(p["k"] == "trait" and p["trait"] == OWNED and p["self"]["k"] == "param" and p["self"]["name"] in lp
+                    for p in f.get("predicates", []))
+        if owned:
+            res.ok(f["path"] + " (OwnedLockable)")
+        else:
+            res.bad(Violation("N5", f["path"], "mutable-data-access", "%s returns %s for any L: a collection checked by try_new can "
+                              "afterwards be given the same lock twice (`*c.child_mut() = (&a, &a)`), and locking it makes a single "
+                              "thread wait on itself forever" % (f["path"], out["s"]), f["span"]["file"], f["span"]["line"]))
+    res.need(4, "mutable accessors of borrow-capable collections")
+    return res
